@@ -131,6 +131,13 @@ def run_property(pid, tier, seed):
         missing = [n for n in base["obligations"] if n not in r.obligations and "__finding_" not in n]
         if missing and not r.undecided:
             undecided.append(f"{u}: vacuity guard: obligations missing from this run: {missing[:5]}")
+        # loop structure changed against the baseline (e.g. `while c {}` rewritten as `loop { if !c {break} }`): the
+        # loop annotations, keyed by ordinal, no longer fit -> same policy as lost proof hints (needs a witness)
+        for f in (r.meta["functions"] if r.meta else []):
+            bl = (base.get("loops") or {}).get(f["name"])
+            if f["kind"] == "fn" and bl is not None and f.get("loops", []) != bl:
+                lost_hint_fns.setdefault(u, set()).add(f["name"])
+                lines.append(f"NOTE unit={u} loop structure of {f['name']} changed ({bl} -> {f.get('loops', [])}): loop annotations may no longer fit")
         finding_fns = {f["name"]: f["finding"] for f in (r.meta["functions"] if r.meta else []) if f.get("finding")}
         for fn, diags in r.failed.items():
             last = fn.split("::")[-1]
@@ -267,7 +274,8 @@ def rebaseline(units):
             return 1
         os.makedirs(os.path.join(VERIF, "baseline"), exist_ok=True)
         with open(os.path.join(VERIF, "baseline", u + ".json"), "w") as f:
-            json.dump({"unit": u, "obligations": sorted(n for n in r.obligations if "__finding_" not in n),
+            json.dump({"unit": u, "loops": {f["name"]: f.get("loops", []) for f in r.meta["functions"] if f["kind"] == "fn" and f.get("loops")},
+                       "obligations": sorted(n for n in r.obligations if "__finding_" not in n),
                        "functions": {f["name"]: f["sha256"] for f in r.meta["functions"]}}, f, indent=1)
         print(f"baseline/{u}.json: {len(r.obligations)} obligations")
     return 0
